@@ -30,10 +30,11 @@ Advance(t, a, now) ==
                         !.samples = Append(DropOld(@, now - Period), <<now, a>>)]
     IN FinishCheck(t1, now)
 
-\* update(task, total=, completed=, advance=): total change resets speed data and finish time;
+\* update(task, total=, completed=, advance=): a total that differs from the current one resets speed data and finish
+\* time (9.10.0 reset them for any given total, re-stamping the finish time of a finished task: fix: faa6db6);
 \* a sample is recorded only for a positive net change (progress.py:787-833)
 Update(t, total, completed, advance, now) ==
-    LET t1 == IF total.has THEN [t EXCEPT !.tot = total.v, !.samples = <<>>, !.fin = None] ELSE t
+    LET t1 == IF total.has /\ total.v # t.tot THEN [t EXCEPT !.tot = total.v, !.samples = <<>>, !.fin = None] ELSE t   \* a CHANGE of the total
         t2 == IF advance.has THEN [t1 EXCEPT !.c = @ + advance.v, !.sumAdv = @ + advance.v, !.nonneg = @ /\ advance.v >= 0] ELSE t1
         t3 == IF completed.has THEN [t2 EXCEPT !.c = completed.v, !.lastSet = completed.v, !.sumAdv = 0] ELSE t2
         d  == t3.c - t.c
